@@ -39,6 +39,14 @@ pub trait ClientMsg: WriteXml + Debug {
         let mut buf = Vec::new();
         let mut writer = Writer::new(&mut buf);
         self.write_xml(&mut writer)?;
+        // Escaped text can never contain the end-of-message marker, but a caller-supplied XML
+        // fragment can (attribute value, comment, processing instruction): such a message
+        // cannot be framed, the peer would cut it in two.
+        if buf.windows(MARKER.len()).any(|window| window == MARKER) {
+            return Err(WriteError::Other(
+                "message contains the end-of-message marker ']]>]]>'".into(),
+            ));
+        }
         buf.extend_from_slice(MARKER);
         Ok(String::from_utf8(buf)?)
     }
